@@ -84,6 +84,12 @@ def main():
     if os.path.exists(os.path.join(mutdir, "notes.md")):
         shutil.copy(os.path.join(mutdir, "notes.md"), dst)
     meta["demo_path"] = demo_rel
+    old_path = os.path.join(dst, "meta.json")
+    if "--notests" in a and os.path.exists(old_path):
+        old = json.load(open(old_path))
+        if any("baseline tests" in r.get("cmd", "") for r in old.get("ran", [])):
+            meta["ran"] = old["ran"]
+            meta["ran_note"] = "confirmation (demo, build, baseline suite) carried over from the first run of this seeded change; only the checks were re-run"
     json.dump(meta, open(os.path.join(dst, "meta.json"), "w"), indent=1)
     print("caught by:", meta["caught_by"])
 
